@@ -14,6 +14,7 @@ def main():
     ap.add_argument('--replay')
     a = ap.parse_args()
     seed = int(os.environ.get('VERIF_SEED', '0') or 0)
+    os.environ['VERIF_TIER_EFFECTIVE'] = a.tier if a.tier in ('quick', 'thorough') else 'quick'
     if a.replay:
         from pyvc import replay
         sys.exit(replay.replay_file(a.replay if os.path.isabs(a.replay) else os.path.join(ROOT, a.replay)))
